@@ -77,6 +77,12 @@ def faulty(spec):
            any(op[0] == 'close' for ops in spec['clients'] for op in ops) or \
            (any(a[0] == 'other' for a in spec['server']) and spec.get('profile', 'default') in QUALIFY_OFF)
 
+def stall_under_lock(sc):
+    st = getattr(sc.S, 'stalls', [])
+    if st:
+        return ('thread %s waited out a time limit while holding a lock that %s needed: the other thread is stalled for the whole timeout' % st[0], 'stall_under_lock')
+    return None
+
 def deadlock(sc):
     """A thread that ends the run waiting for a lock nobody will release (locks are released by their holders in every
     path of correct code), or a session thread blocked for ever."""
@@ -184,14 +190,14 @@ def oracle_c04(sc):
 def oracle_c11(sc):
     """Every notification sent is taken exactly once, in order; never fails a request, never ends the session."""
     spec = sc.spec
-    d = deadlock(sc)
+    d = deadlock(sc) or stall_under_lock(sc)
     if d: return d
     sent = [a[1] for a in server_acts(spec, 'notif')]
     if not sent:
         return None
     ob = observed(sc)
     dispatched = [int(re.search(r'<ev>n(\d+)</ev>', e[2]).group(1)) for e in sc.S.effects[:sc.n_effects]
-                  if e[1] == 'dispatch' and e[2].startswith('<notification')]
+                  if e[1] == 'dispatch' and re.sub(r'^<\?xml[^>]*\?>', '', e[2]).startswith('<notification')]
     # single consumer threads take in order: merge by global effect order
     took = [int(re.search(r'<ev>n(\d+)</ev>', e[2].notification_xml).group(1)) for e in sc.S.effects[:sc.n_effects]
             if e[1] == 'nq.get' and e[0] != 'W' and e[2] is not None]
@@ -331,6 +337,8 @@ def gen_spec(rng, pid):
     d = dict(profile=profile, clients=clients, server=server, eager=eager)
     if pid in ('C03', 'C04', 'C11') and rng.random() < 0.2:
         d['app'] = 'reenter'
+    if rng.random() < 0.3:
+        d['decl'] = True            # the server writes an XML declaration in front of every message (legal, common)
     if pid == 'C14':
         d['base11'] = rng.random() < 0.75
     if pid == 'C04' and wf is not None:
@@ -354,7 +362,8 @@ SMALL = {
             dict(profile='default', clients=[[('rpc', True)], [('rpc', True)]], server=[('reply', 1)], eager=False)],
     'C11': [dict(profile='junos', clients=[[('rpc', True), ('take', False)], [('take', True)]], server=[('notif', 1), ('reply', 0), ('notif', 2)], eager=False),
             dict(profile='default', clients=[[('rpc', True)], [('take', True), ('take', False)]], server=[('reply', 0), ('notif', 1)], eager=False),
-            dict(profile='iosxr', clients=[[('rpc', True)], [('await_disc',), ('take', True), ('take', True), ('take', True)]], server=[('notif', 1), ('reply', 0), ('notif', 2), ('eof',)], eager=False)],
+            dict(profile='iosxr', clients=[[('rpc', True)], [('await_disc',), ('take', True), ('take', True), ('take', True)]], server=[('notif', 1), ('reply', 0), ('notif', 2), ('eof',)], eager=False),
+            dict(profile='default', decl=True, clients=[[('take', True), ('rpc', True)], [('rpc', True)]], server=[('reply', 0), ('notif', 1), ('reply', 1)], eager=False)],
 }
 
 def dfs_schedules(spec, bound, cap):
